@@ -584,11 +584,11 @@ protected:
         (sol::SOLVED_LAST>=SolveCode() &&
          sol::SOLVED<=SolveCode())
         ||
-        (sol::LIMIT_FEAS>=SolveCode() &&
-         sol::LIMIT_FEAS_LAST<=SolveCode())
+        (sol::LIMIT_FEAS<=SolveCode() &&
+         sol::LIMIT_FEAS_LAST>=SolveCode())
         ||
-        (sol::UNBOUNDED_FEAS>=SolveCode() &&
-         sol::UNBOUNDED_NO_FEAS_LAST<=SolveCode());
+        (sol::UNBOUNDED_FEAS<=SolveCode() &&
+         sol::UNBOUNDED_FEAS_LAST>=SolveCode());
   }
   /// Undecidedly infeas or unbnd
   virtual bool IsProblemIndiffInfOrUnb() const {
@@ -608,7 +608,7 @@ protected:
   virtual bool IsProblemInfeasible() const {
     assert( IsSolStatusRetrieved() );
     auto sc = SolveCode();
-    return sol::INFEASIBLE<=sc && sol::INFEASIBLE_LAST>sc;
+    return sol::INFEASIBLE<=sc && sol::INFEASIBLE_LAST>=sc;
   }
   virtual bool IsProblemUnbounded() const {
     assert( IsSolStatusRetrieved() );
